@@ -187,6 +187,10 @@ class Policy:
         c = self.registry.contracts.get(fi.qualname)
         if c is None:
             return None
+        if getattr(c, "inline_when_concrete", False) and I.ext_state.get("concrete") is not None:
+            need = getattr(c, "inline_needs_key", None)
+            if need is None or need in I.ext_state["concrete"]:
+                return None
         if self.use is not None and fi.qualname not in self.use:
             return None
         if not getattr(c, "callable_by_contract", True):
@@ -214,6 +218,39 @@ def run_body(I, fi, args, kwargs):
         return r.value
 
 
+# class-level containers that are constants (never written by the library)
+GLOBAL_READS_ALLOWED = {("nasim.envs.action.ParameterisedActionSpace", "action_types"),
+                        ("nasim.envs.environment.NASimEnv", "metadata")}
+
+
+def emit_heap_frames(c, I, S, ctx, tagsof):
+    # heap frame: every write to a pre-existing object must be to something the contract declares
+    mods = c.modifies(I, S)
+    bad = []
+    for w in ctx.writes:
+        if w[0] in ("field", "list", "dict", "sdict", "cell") and not any(w[1] is m for m in mods):
+            bad.append(f"{w[0]}:{getattr(w[1], 'label', None) or w[1]!r}" + (f".{w[2]}" if len(w) > 2 else ""))
+    inf = tagsof("frame:heap")
+    inf["tags"] = sorted(set(inf["tags"]) | set(c.all_props()))
+    inf["undeclared_writes"] = sorted(set(bad))
+    ctx.oblige(f"{c.qualname}:frame:writes-within-modifies", z3.BoolVal(not bad), kind="frame", info=inf)
+    # global heap frame (C19): class attributes / module globals written on this path
+    gw = sorted({f"{w[1]}.{w[2]}" for w in ctx.writes if w[0] == "classattr"
+                 and w[1] not in getattr(c, "global_writes_allowed", ())})
+    inf = tagsof("frame:global")
+    inf["tags"] = sorted(set(inf["tags"]) | {"C19"})
+    inf["global_writes"] = gw
+    ctx.oblige(f"{c.qualname}:frame:C19.no-undeclared-global-writes", z3.BoolVal(not gw), kind="frame", info=inf)
+    allowed_r = set(GLOBAL_READS_ALLOWED) | set(getattr(c, "global_reads_allowed", ()))
+    gr = sorted({f"{w[1]}.{w[2]}" for w in ctx.writes if w[0] == "classattr-read"
+                 and (w[1], w[2]) not in allowed_r and w[1] not in getattr(c, "global_writes_allowed", ())
+                 and not w[1].endswith(".HostVector")})
+    inf = tagsof("frame:global")
+    inf["tags"] = sorted(set(inf["tags"]) | {"C19"})
+    inf["global_reads"] = gr
+    ctx.oblige(f"{c.qualname}:frame:C19.no-undeclared-global-reads", z3.BoolVal(not gr), kind="frame", info=inf)
+
+
 def verify_contract(repo, c, variant, policy=None, path_timeout_ms=2000, max_paths=20000, concrete=None):
     """symbolically execute the real function under contract c; returns (obligations, stats)"""
     fi = repo.function(c.qualname)
@@ -223,6 +260,8 @@ def verify_contract(repo, c, variant, policy=None, path_timeout_ms=2000, max_pat
 
     def run(ctx):
         I = Interp(repo, ctx, policy)
+        from . import builtins as _B
+        _B.INF_SYMBOL = None
         if concrete is not None:
             I.ext_state["concrete"] = concrete
         S = c.setup(I, variant)
@@ -236,6 +275,11 @@ def verify_contract(repo, c, variant, policy=None, path_timeout_ms=2000, max_pat
         try:
             args, kwargs = S.call_args
             S.result = run_body(I, fi, args, kwargs)
+        except EngineLimit as lim:
+            # out of reach from here on; what was written before is still checked against the frame
+            stats.setdefault("limits", []).append(str(lim))
+            emit_heap_frames(c, I, S, ctx, tagsof)
+            return "limit"
         except PyExc as e:
             for kind_, q in I.call_log:
                 stats["calls"].add((kind_, q))
@@ -256,23 +300,7 @@ def verify_contract(repo, c, variant, policy=None, path_timeout_ms=2000, max_pat
             ctx.oblige(f"{c.qualname}:post:{label}", t, kind="post", info=tagsof(label))
         for label, t in c.frame(I, S):
             ctx.oblige(f"{c.qualname}:frame:{label}", t, kind="frame", info=tagsof("frame:" + label))
-        # heap frame: every write to a pre-existing object must be to something the contract declares
-        mods = c.modifies(I, S)
-        bad = []
-        for w in ctx.writes:
-            if w[0] in ("field", "list", "dict", "sdict", "cell") and not any(w[1] is m for m in mods):
-                bad.append(f"{w[0]}:{getattr(w[1], 'label', None) or w[1]!r}" + (f".{w[2]}" if len(w) > 2 else ""))
-        inf = tagsof("frame:heap")
-        inf["tags"] = sorted(set(inf["tags"]) | set(c.all_props()))
-        inf["undeclared_writes"] = sorted(set(bad))
-        ctx.oblige(f"{c.qualname}:frame:writes-within-modifies", z3.BoolVal(not bad), kind="frame", info=inf)
-        # global heap frame (C19): class attributes / module globals written on this path
-        gw = sorted({f"{w[1]}.{w[2]}" for w in ctx.writes if w[0] == "classattr"
-                     and w[1] not in getattr(c, "global_writes_allowed", ())})
-        inf = tagsof("frame:global")
-        inf["tags"] = sorted(set(inf["tags"]) | {"C19"})
-        inf["global_writes"] = gw
-        ctx.oblige(f"{c.qualname}:frame:C19.no-undeclared-global-writes", z3.BoolVal(not gw), kind="frame", info=inf)
+        emit_heap_frames(c, I, S, ctx, tagsof)
         # reachability cover: this normal-exit path is feasible
         return "return"
 
